@@ -6,6 +6,7 @@ From MD Require Import Regex.LocalityProofs Proofs.RoundTrip.
 From MD Require Import Regex.LocalityProofs Proofs.RoundTrip Proofs.RoundTrip2.
 From MD Require Import Regex.LocalityProofs Proofs.RoundTrip Proofs.RoundTrip2 Proofs.RoundTrip3 Proofs.RoundTrip4 Proofs.RoundTrip5 Proofs.RoundTrip6.
 From MD Require Import Proofs.RoundTrip7.
+From MD Require Import Proofs.Dominance.
 
 (* base64 (bare and the three call forms): a2b_base64 (b64_encode p) = p for every payload *)
 Theorem C02_layer_base64 : forall p : bytes, wf_bytes p -> a2b_base64 (b64_encode p) = Ok p.
@@ -156,23 +157,23 @@ Theorem C02_layer_xml_found : forall (pre : list N) (p suf : bytes), wf_bytes p 
 Proof. exact find_xml_hex_roundtrip. Qed.
 Print Assumptions C02_layer_xml_found.
 
-Theorem C02_layer_reverse_found : forall (nm : bytes) (pre : list N) (ws1 : bytes) (q : N) (p ws2 : bytes) (suf : list N), lower nm = s2b "reverse(" \/ lower nm = s2b "reversed(" -> ws_ok ws1 = true -> ws_ok ws2 = true -> is_quote q -> lit_ok q p = true -> (Datatypes.length p + Datatypes.length ws1 + Datatypes.length ws2 + 100 <= Backtrack.default_fuel)%nat -> neutral Regexes.RE_reverse_REVERSE_RE pre = true -> let form := nm ++ ws1 ++ quoted q (rev p) ++ ws2 ++ s2b ")" in let data := pre ++ form ++ suf in find_reverse data = Hang \/ (exists rest : list node, find_reverse data = Ok (Node (s2b "string") p (s2b "reverse") (blen pre) (blen pre + blen form) [] :: rest) /\ Forall (fun nd : node => blen pre + blen form <= n_st nd) rest).
+Theorem C02_layer_reverse_found : forall (nm : bytes) (pre : list N) (ws1 : bytes) (q : N) (p ws2 : bytes) (suf : list N), lower nm = s2b "reverse(" \/ lower nm = s2b "reversed(" -> ws_ok ws1 = true -> ws_ok ws2 = true -> is_quote q -> lit_ok q p = true -> (Datatypes.length p + Datatypes.length ws1 + Datatypes.length ws2 + 100 <= Backtrack.default_fuel)%nat -> neutral Regexes.RE_reverse_REVERSE_RE pre = true -> let form := nm ++ ws1 ++ RoundTrip2.quoted q (rev p) ++ ws2 ++ s2b ")" in let data := pre ++ form ++ suf in find_reverse data = Hang \/ (exists rest : list node, find_reverse data = Ok (Node (s2b "string") p (s2b "reverse") (blen pre) (blen pre + blen form) [] :: rest) /\ Forall (fun nd : node => blen pre + blen form <= n_st nd) rest).
 Proof. exact find_reverse_roundtrip. Qed.
 Print Assumptions C02_layer_reverse_found.
 
-Theorem C02_layer_strreverse_found : forall (nm : bytes) (pre : list N) (ws1 : bytes) (q : N) (p ws2 : bytes) (suf : list N), lower nm = s2b "strreverse(" -> ws_ok ws1 = true -> ws_ok ws2 = true -> is_quote q -> lit_ok q p = true -> (Datatypes.length p + Datatypes.length ws1 + Datatypes.length ws2 + 100 <= Backtrack.default_fuel)%nat -> neutral Regexes.RE_vba_STRREVERSE_RE pre = true -> let form := nm ++ ws1 ++ quoted q (rev p) ++ ws2 ++ s2b ")" in let data := pre ++ form ++ suf in find_strreverse data = Hang \/ (exists rest : list node, find_strreverse data = Ok (Node (s2b "vba.string") p (s2b "vba.reverse") (blen pre) (blen pre + blen form) [] :: rest) /\ Forall (fun nd : node => blen pre + blen form <= n_st nd) rest).
+Theorem C02_layer_strreverse_found : forall (nm : bytes) (pre : list N) (ws1 : bytes) (q : N) (p ws2 : bytes) (suf : list N), lower nm = s2b "strreverse(" -> ws_ok ws1 = true -> ws_ok ws2 = true -> is_quote q -> lit_ok q p = true -> (Datatypes.length p + Datatypes.length ws1 + Datatypes.length ws2 + 100 <= Backtrack.default_fuel)%nat -> neutral Regexes.RE_vba_STRREVERSE_RE pre = true -> let form := nm ++ ws1 ++ RoundTrip2.quoted q (rev p) ++ ws2 ++ s2b ")" in let data := pre ++ form ++ suf in find_strreverse data = Hang \/ (exists rest : list node, find_strreverse data = Ok (Node (s2b "vba.string") p (s2b "vba.reverse") (blen pre) (blen pre + blen form) [] :: rest) /\ Forall (fun nd : node => blen pre + blen form <= n_st nd) rest).
 Proof. exact find_strreverse_roundtrip. Qed.
 Print Assumptions C02_layer_strreverse_found.
 
-Theorem C02_layer_replace_found : forall (pre : list N) (q : N) (p c : bytes) (t : N) (tok' suf : list N), let tok := t :: tok' in let x := py_replace p c tok in is_quote q -> lit_ok q p = true -> lit_ok q c = true -> lit_ok q tok = true -> c <> [] -> ~ In t p -> (Datatypes.length x + Datatypes.length tok + Datatypes.length c + 201 <= Backtrack.default_fuel)%nat -> neutral Regexes.RE_replace_REPLACE_RE pre = true -> let form := quoted q x ++ s2b ".replace(" ++ quoted q tok ++ s2b ", " ++ quoted q c ++ s2b ")" in let data := pre ++ form ++ suf in find_replace data = Hang \/ (exists rest : list node, find_replace data = Ok (Node (s2b "string") p (s2b "replace") (blen pre) (blen pre + blen form) [] :: rest) /\ Forall (fun nd : node => blen pre + blen form <= n_st nd) rest).
+Theorem C02_layer_replace_found : forall (pre : list N) (q : N) (p c : bytes) (t : N) (tok' suf : list N), let tok := t :: tok' in let x := py_replace p c tok in is_quote q -> lit_ok q p = true -> lit_ok q c = true -> lit_ok q tok = true -> c <> [] -> ~ In t p -> (Datatypes.length x + Datatypes.length tok + Datatypes.length c + 201 <= Backtrack.default_fuel)%nat -> neutral Regexes.RE_replace_REPLACE_RE pre = true -> let form := RoundTrip2.quoted q x ++ s2b ".replace(" ++ RoundTrip2.quoted q tok ++ s2b ", " ++ RoundTrip2.quoted q c ++ s2b ")" in let data := pre ++ form ++ suf in find_replace data = Hang \/ (exists rest : list node, find_replace data = Ok (Node (s2b "string") p (s2b "replace") (blen pre) (blen pre + blen form) [] :: rest) /\ Forall (fun nd : node => blen pre + blen form <= n_st nd) rest).
 Proof. exact find_replace_decodes. Qed.
 Print Assumptions C02_layer_replace_found.
 
-Theorem C02_layer_vba_replace_found : forall (pre : list N) (q : N) (p c : bytes) (t : N) (tok' suf : list N), let tok := t :: tok' in let x := py_replace p c tok in is_quote q -> lit_ok q p = true -> lit_ok q c = true -> lit_ok q tok = true -> c <> [] -> ~ In t p -> (Datatypes.length x + Datatypes.length tok + Datatypes.length c + 202 <= Backtrack.default_fuel)%nat -> neutral Regexes.RE_replace_VBA_REPLACE_RE pre = true -> let form := s2b "Replace(" ++ quoted q x ++ s2b ", " ++ quoted q tok ++ s2b ", " ++ quoted q c ++ s2b ")" in let data := pre ++ form ++ suf in find_vba_replace data = Hang \/ (exists rest : list node, find_vba_replace data = Ok (Node (s2b "vba.string") p (s2b "vba.replace") (blen pre) (blen pre + blen form) [] :: rest) /\ Forall (fun nd : node => blen pre + blen form <= n_st nd) rest).
+Theorem C02_layer_vba_replace_found : forall (pre : list N) (q : N) (p c : bytes) (t : N) (tok' suf : list N), let tok := t :: tok' in let x := py_replace p c tok in is_quote q -> lit_ok q p = true -> lit_ok q c = true -> lit_ok q tok = true -> c <> [] -> ~ In t p -> (Datatypes.length x + Datatypes.length tok + Datatypes.length c + 202 <= Backtrack.default_fuel)%nat -> neutral Regexes.RE_replace_VBA_REPLACE_RE pre = true -> let form := s2b "Replace(" ++ RoundTrip2.quoted q x ++ s2b ", " ++ RoundTrip2.quoted q tok ++ s2b ", " ++ RoundTrip2.quoted q c ++ s2b ")" in let data := pre ++ form ++ suf in find_vba_replace data = Hang \/ (exists rest : list node, find_vba_replace data = Ok (Node (s2b "vba.string") p (s2b "vba.replace") (blen pre) (blen pre + blen form) [] :: rest) /\ Forall (fun nd : node => blen pre + blen form <= n_st nd) rest).
 Proof. exact find_vba_replace_decodes. Qed.
 Print Assumptions C02_layer_vba_replace_found.
 
-Theorem C02_layer_ps_replace_found : forall (pre : list N) (q : N) (p c : bytes) (t : N) (tok' : list N) (suf : bytes), let tok := t :: tok' in let x := py_replace p c tok in is_quote q -> lit_ok q p = true -> lit_ok q c = true -> lit_ok q tok = true -> c <> [] -> ~ In t p -> stop_q q suf = true -> (Datatypes.length x + Datatypes.length tok + Datatypes.length c + 202 <= Backtrack.default_fuel)%nat -> neutral Regexes.RE_replace_POWERSHELL_REPLACE_RE pre = true -> let form := quoted q x ++ s2b " -replace " ++ quoted q tok ++ s2b "," ++ quoted q c in let data := pre ++ form ++ suf in find_powershell_replace data = Hang \/ (exists rest : list node, find_powershell_replace data = Ok (Node (s2b "powershell.string") p (s2b "replace") (blen pre) (blen pre + blen form) [] :: rest) /\ Forall (fun nd : node => blen pre + blen form <= n_st nd) rest).
+Theorem C02_layer_ps_replace_found : forall (pre : list N) (q : N) (p c : bytes) (t : N) (tok' : list N) (suf : bytes), let tok := t :: tok' in let x := py_replace p c tok in is_quote q -> lit_ok q p = true -> lit_ok q c = true -> lit_ok q tok = true -> c <> [] -> ~ In t p -> stop_q q suf = true -> (Datatypes.length x + Datatypes.length tok + Datatypes.length c + 202 <= Backtrack.default_fuel)%nat -> neutral Regexes.RE_replace_POWERSHELL_REPLACE_RE pre = true -> let form := RoundTrip2.quoted q x ++ s2b " -replace " ++ RoundTrip2.quoted q tok ++ s2b "," ++ RoundTrip2.quoted q c in let data := pre ++ form ++ suf in find_powershell_replace data = Hang \/ (exists rest : list node, find_powershell_replace data = Ok (Node (s2b "powershell.string") p (s2b "replace") (blen pre) (blen pre + blen form) [] :: rest) /\ Forall (fun nd : node => blen pre + blen form <= n_st nd) rest).
 Proof. exact find_powershell_replace_decodes. Qed.
 Print Assumptions C02_layer_ps_replace_found.
 
@@ -203,6 +204,34 @@ Print Assumptions C02_layer_xmlhex_found.
 Theorem C02_layer_ps_bytes_found : forall (xortool : bytes -> list bytes) (pre : list N) (els : list (ps_el * bytes)) (last : ps_el) (suf : bytes), ps_els_ok els -> el_ok last = true -> (500 <= Datatypes.length els)%nat -> ps_stop suf = true -> (2 * Datatypes.length (psb_text els last) + 100 <= Backtrack.default_fuel)%nat -> neutral Regexes.RE_powershell_POWERSHELL_BYTES_RE pre = true -> neutral Regexes.RE_xor_helper_XOR_RE pre = true -> neutral Regexes.RE_xor_helper_XOR_RE suf = true -> let form := psb_text els last in let data := pre ++ form ++ suf in find_powershell_bytes xortool data = Hang \/ (exists rest : list node, find_powershell_bytes xortool data = Ok (Node (s2b "powershell.bytes") (ps_values els last) [] (blen pre) (blen pre + blen form) [] :: rest) /\ Forall (fun nd : node => blen pre + blen form <= n_st nd) rest).
 Proof. exact find_powershell_bytes_roundtrip. Qed.
 Print Assumptions C02_layer_ps_bytes_found.
+
+(* FULLY END TO END at the shipped scanner (Proofs/Dominance.v), for EVERY payload: the scan of unescape('<percent-encoded p>') with all 30 decoders and the shipped keyword lists is (matcher fuel aside) a root with EXACTLY ONE child, the function.unescape node over the whole text with value p - dominance over every other decoder and every keyword searcher is proved, not assumed *)
+Theorem C02_unescape_whole_scan : forall (pe_size : bytes -> Z) (xortool : bytes -> list bytes) (extra : label -> option (bytes -> res (list node))) (p : bytes) (depth : Z), wf_bytes p -> p <> [] -> (Datatypes.length (quote_all p) + 64 <= Backtrack.default_fuel)%nat -> 0 < depth -> scan_default pe_size xortool extra RegistryTable.decoder_modules Keywords.shipped_keywords depth (form p) = Hang \/ (exists t c : node, scan_default pe_size xortool extra RegistryTable.decoder_modules Keywords.shipped_keywords depth (form p) = Ok t /\ n_val t = form p /\ n_kids t = [c] /\ n_ty c = s2b "string" /\ n_val c = p /\ n_obf c = s2b "function.unescape" /\ n_st c = 0 /\ n_en c = blen (form p)).
+Proof. exact unescape_scan_tree_shipped. Qed.
+Print Assumptions C02_unescape_whole_scan.
+
+Theorem C02_unescape_dominant : forall (pe_size : bytes -> Z) (xortool : bytes -> list bytes) (extra : label -> option (bytes -> res (list node))) (kwdir : Registry.dtree), kw_clear kwdir = true -> forall p : bytes, wf_bytes p -> p <> [] -> (Datatypes.length (quote_all p) + 64 <= Backtrack.default_fuel)%nat -> forall (ty : label) (hs : list node), search_default pe_size xortool extra RegistryTable.decoder_modules kwdir (form p) = Ok hs -> dominant (search_of (search_default pe_size xortool extra RegistryTable.decoder_modules kwdir)) ty (form p) (hit p).
+Proof. exact unescape_dominant. Qed.
+Print Assumptions C02_unescape_dominant.
+
+(* ... and the depth-1 tree flattens to the re-quoted payload *)
+Theorem C02_unescape_flatten : forall (pe_size : bytes -> Z) (xortool : bytes -> list bytes) (extra : label -> option (bytes -> res (list node))) (kwdir : Registry.dtree), kw_clear kwdir = true -> forall p : bytes, wf_bytes p -> p <> [] -> (Datatypes.length (quote_all p) + 64 <= Backtrack.default_fuel)%nat -> forall t : node, scan_default pe_size xortool extra RegistryTable.decoder_modules kwdir 1 (form p) = Ok t -> flatten t = quoted p.
+Proof. exact unescape_scan_flatten_1. Qed.
+Print Assumptions C02_unescape_flatten.
+
+(* a two-layer stack unescape(atob(base64 q)): the nested chain of exactly these two nodes, for every payload q *)
+Theorem C02_two_layer_whole_scan : forall (pe_size : bytes -> Z) (xortool : bytes -> list bytes) (extra : label -> option (bytes -> res (list node))) (q : bytes) (depth : Z), wf_bytes q -> q <> [] -> (Datatypes.length (b64_encode q) + 64 <= Backtrack.default_fuel)%nat -> (Datatypes.length (quote_all (atob_form q)) + 64 <= Backtrack.default_fuel)%nat -> 1 < depth -> scan_default pe_size xortool extra RegistryTable.decoder_modules Keywords.shipped_keywords depth (form (atob_form q)) = Hang \/ (exists t c1 c2 : node, scan_default pe_size xortool extra RegistryTable.decoder_modules Keywords.shipped_keywords depth (form (atob_form q)) = Ok t /\ n_val t = form (atob_form q) /\ n_kids t = [c1] /\ hdr_eq c1 (hit (atob_form q)) /\ n_kids c1 = [c2] /\ hdr_eq c2 (atob_hit q)).
+Proof. exact stack2_scan_tree_shipped. Qed.
+Print Assumptions C02_two_layer_whole_scan.
+
+Theorem C02_two_layer_flatten : forall (pe_size : bytes -> Z) (xortool : bytes -> list bytes) (extra : label -> option (bytes -> res (list node))) (kwdir : Registry.dtree), kw_clear kwdir = true -> kw_clear_of (s2b "atob(") kwdir = true -> forall q : bytes, wf_bytes q -> q <> [] -> (Datatypes.length (b64_encode q) + 64 <= Backtrack.default_fuel)%nat -> (Datatypes.length (quote_all (atob_form q)) + 64 <= Backtrack.default_fuel)%nat -> forall t : node, scan_default pe_size xortool extra RegistryTable.decoder_modules kwdir 2 (form (atob_form q)) = Ok t -> flatten t = quoted (quoted q).
+Proof. exact stack2_scan_flatten. Qed.
+Print Assumptions C02_two_layer_flatten.
+
+(* generic tool: a pattern whose every word contains a byte outside an alphabet (decided by the verified product exploration) finds nothing in texts over that alphabet *)
+Theorem C02_decoders_silent_on_alphabet : forall (r : Syntax.re) (ng : nat) (data : bytes), leaves_sigma r = true -> in_sigma data -> fi r ng data = Hang \/ fi r ng data = Ok [].
+Proof. exact fi_in_sigma. Qed.
+Print Assumptions C02_decoders_silent_on_alphabet.
 
 Example C02_example :
   a2b_base64 (b64_encode (L"GET http://evil.example.com/payload.exe now")) = Ok (L"GET http://evil.example.com/payload.exe now")
